@@ -6,8 +6,12 @@
   ARBITRARY payloads (any `J`, unbounded depth and width), arbitrary credential dicts / lists /
   predicates (`J → Bool`), arbitrary application registries, server states and mode strings.
 
+  The read-only clause on the instrumented server as a whole, per step and for whole histories:
+  `read_only_request_inert`, `read_only_queued_request_inert`, `read_only_history_inert`.
+
   The third clause of the property (application clients observe the same with and without
-  instrumentation): `wrappers_transparent_partial` at the end of this file, over the model
+  instrumentation): `wrappers_transparent_partial` (and, in read-only / production mode without
+  the first half of its `quiet` hypothesis, `wrappers_transparent_read_only[_sync]`), over the model
   `Instrumented.stepWith` (= `Server.step` on the instrumented registry, the admin handlers' API
   calls, the wrappers' reports), tied to admin.py by harness/props/c18.py which runs the model
   next to the real instrumented server (and the real instrumented next to the real plain server).
@@ -407,7 +411,8 @@ Hypotheses (why `_partial`):
    history (its nested inputs cannot be given skips) — excluded;
  * `Instrumented.quiet` (decidable, evaluated along the instrumented run): no step invokes one of
    the four mutators — they act on the application by design; in read-only / production mode
-   none is registered (`read_only_registry`, `ro_resolve_no_mutator`) — and, when queued handlers
+   this half is a THEOREM (`quiet_of_read_only`; `wrappers_transparent_read_only` and, with
+   synchronous handlers, `wrappers_transparent_read_only_sync` no longer assume it) — and, when queued handlers
    run (`async_handlers`), no queued *admin* EVENT has a handler: the only such event is one
    literally named `connect` (it would run `admin_connect` as an event handler and thereby
    consume an outcome of the application's event script between two application events; with
@@ -486,6 +491,241 @@ theorem ro_resolve_no_mutator {app : Registry} {a : Ns} {mode : Str} {ro : Bool}
     ∀ slot args', (r = .fn slot args' ∨ r = .clsCall slot args') →
       mutatorCalled a (.invoke slot args') = false :=
   Admin.ro_resolve_no_mutator hro hc ha h
+
+/-! ### read-only / production mode: `quiet`'s first half is a theorem
+
+`Instrumented.quiet` is the conjunction of `Instrumented.noMutator` (no step of the history invokes
+`emit / join / leave / _disconnect`) and `Instrumented.settleQuiet` (at `settle`, no queued admin
+EVENT has a handler) — `quiet_split`.  With `read_only=True`, or in any mode other than
+`development`, the first conjunct holds of EVERY history from EVERY state: `ro_resolve_no_mutator`
+lifted through `endSession`, `handleConnect`, `runHandler`, `handleEvent`, `handleFrame`,
+`handleLost`, `settle`, blocking `call()`s with their nested histories, the admin handlers' API
+calls and the reports (`Sio/Lemmas/AdminTransparent.lean`, `step_run_noMut`, `stepWith_noMut`). -/
+
+/-- `quiet` is its two halves -/
+theorem quiet_split (dec : Str → Except Err (Packet × Nat)) (c : Cfg) (a : Ns) (mode : Str) (ro : Bool)
+    (rep : Srv → Input → List Out → List Report) (s : Srv) (hist : List Input) :
+    Instrumented.quiet dec c a mode ro rep s hist =
+      (Instrumented.noMutator dec c a mode ro rep s hist &&
+        Instrumented.settleQuiet dec c a mode ro rep s hist) :=
+  quiet_eq dec c a mode ro rep s hist
+
+/-- **The server core never invokes a mutator in read-only / production mode**: for every decoder,
+    every configuration whose registry is `instrumentReg app a mode ro`, every state `s` (reachable
+    or not) and every history (any inputs, blocking `call()`s with nested histories included), no
+    output of the run is the invocation of `emit / join / leave / _disconnect` of the admin
+    namespace. -/
+theorem read_only_run_no_mutator (dec : Str → Except Err (Packet × Nat)) {cfg : Cfg} {app : Registry}
+    {a : Ns} {mode : Str} {ro : Bool} (hreg : cfg.reg = instrumentReg app a mode ro)
+    (hro : ro = true ∨ isDev mode = false) (hc : AppClear app a) (ha : a ≠ star)
+    (s : Srv) (hist : List Input) :
+    ∀ slot args, Out.invoke slot args ∈ (run dec cfg s hist).2 →
+      mutatorCalled a (.invoke slot args) = false := by
+  intro slot args hm
+  have hR : RegNoMut cfg.reg a := by rw [hreg]; exact regNoMut_ro hro hc ha
+  exact (step_run_noMut dec hR).2 s hist _ hm
+
+/-- **`quiet`'s first half, proved** (read-only / production mode): from every state, along every
+    history and for every reporting policy, no step invokes a mutator
+    (`Instrumented.noMutator … = true`); moreover NO output of the instrumented run — of the core,
+    of the admin handlers' API calls, of the reports — is the invocation of a mutator; hence
+    `quiet` is just its second half. -/
+theorem quiet_of_read_only (dec : Str → Except Err (Packet × Nat)) (c : Cfg) {a : Ns} {mode : Str}
+    {ro : Bool} (rep : Srv → Input → List Out → List Report)
+    (hro : ro = true ∨ isDev mode = false) (hc : AppClear c.reg a) (ha : a ≠ star)
+    (s : Srv) (hist : List Input) :
+    Instrumented.noMutator dec c a mode ro rep s hist = true ∧
+    (∀ x ∈ (Instrumented.traceWith dec c a mode ro rep s hist).2, ∀ slot args,
+      Out.invoke slot args ∈ x.2 → mutatorCalled a (.invoke slot args) = false) ∧
+    Instrumented.quiet dec c a mode ro rep s hist =
+      Instrumented.settleQuiet dec c a mode ro rep s hist :=
+  ⟨noMutator_ro c hro hc ha dec rep hist s,
+   fun x hx _ _ hm => traceWith_noMut c hro hc ha dec rep hist s x hx _ hm,
+   quiet_ro c hro hc ha dec rep s hist⟩
+
+/-- … and with synchronous handlers (`async_handlers=False`) the second half holds too, from any
+    state with an empty queue: nothing is ever queued. -/
+theorem quiet_of_read_only_sync (dec : Str → Except Err (Packet × Nat)) (c : Cfg) {a : Ns} {mode : Str}
+    {ro : Bool} (rep : Srv → Input → List Out → List Report)
+    (hro : ro = true ∨ isDev mode = false) (hc : AppClear c.reg a) (ha : a ≠ star)
+    (hsync : c.asyncHandlers = false) {s : Srv} (hbg : s.bg = []) (hist : List Input) :
+    Instrumented.quiet dec c a mode ro rep s hist = true := by
+  rw [quiet_ro c hro hc ha dec rep s hist]
+  exact settleQuiet_sync dec c a mode ro rep hsync hist hbg
+
+/-- **Transparency in read-only / production mode**: `wrappers_transparent_partial` with `quiet`
+    replaced by the mode hypothesis and the remaining half of `quiet` — along the run, whenever
+    queued handlers are run, no queued admin EVENT has a handler (in this mode: no admin client
+    sent an EVENT literally named `connect` under `async_handlers=True`). -/
+theorem wrappers_transparent_read_only (dec : Str → Except Err (Packet × Nat)) (c : Cfg) {a : Ns}
+    (mode : Str) (ro : Bool) (rep : Srv → Input → List Out → List Report)
+    (hro : ro = true ∨ isDev mode = false)
+    (hc : AppClear c.reg a) (ha : a ≠ star) (hserved : isServed c a = false)
+    (hist : List Input) (happ : hist.all (appInput a) = true)
+    (hq : Instrumented.settleQuiet dec c a mode ro rep {} hist = true) :
+    ∃ skips : List Skip, skips.length = hist.length ∧
+      observeTrace a (Instrumented.traceWith dec c a mode ro rep {} hist).2 =
+        observeTrace a (Plain.traceSkip dec c {} (skips.zip hist)).2 ∧
+      appState a (Instrumented.traceWith dec c a mode ro rep {} hist).1 =
+        appState a (Plain.traceSkip dec c {} (skips.zip hist)).1 :=
+  wrappers_transparent_partial dec c mode ro rep hc ha hserved hist happ
+    (by rw [quiet_ro c hro hc ha dec rep {} hist]; exact hq)
+
+theorem wrappers_transparent_read_only_run (dec : Str → Except Err (Packet × Nat)) (c : Cfg) {a : Ns}
+    (mode : Str) (ro : Bool) (P : Payloads) (hro : ro = true ∨ isDev mode = false)
+    (hc : AppClear c.reg a) (ha : a ≠ star) (hserved : isServed c a = false)
+    (hist : List Input) (happ : hist.all (appInput a) = true)
+    (hq : Instrumented.settleQuiet dec c a mode ro
+      (reports dec (Instrumented.cfg c a mode ro) a mode P) {} hist = true) :
+    ∃ skips : List Skip, skips.length = hist.length ∧
+      (observeTrace a (Instrumented.trace dec c a mode ro P {} hist).2).flatMap (·.2) =
+        (observeTrace a (Plain.traceSkip dec c {} (skips.zip hist)).2).flatMap (·.2) ∧
+      appState a (Instrumented.run dec c a mode ro P {} hist).1 =
+        appState a (Plain.runSkip dec c {} (skips.zip hist)).1 :=
+  wrappers_transparent_partial_run dec c mode ro P hc ha hserved hist happ
+    (by rw [quiet_ro c hro hc ha dec _ {} hist]; exact hq)
+
+/-- **Transparency in read-only / production mode with `async_handlers=False`: no `quiet` left.**
+    For every history whose API calls do not address the admin namespace, whatever the admin
+    clients send. -/
+theorem wrappers_transparent_read_only_sync (dec : Str → Except Err (Packet × Nat)) (c : Cfg) {a : Ns}
+    (mode : Str) (ro : Bool) (rep : Srv → Input → List Out → List Report)
+    (hro : ro = true ∨ isDev mode = false)
+    (hc : AppClear c.reg a) (ha : a ≠ star) (hserved : isServed c a = false)
+    (hsync : c.asyncHandlers = false)
+    (hist : List Input) (happ : hist.all (appInput a) = true) :
+    ∃ skips : List Skip, skips.length = hist.length ∧
+      observeTrace a (Instrumented.traceWith dec c a mode ro rep {} hist).2 =
+        observeTrace a (Plain.traceSkip dec c {} (skips.zip hist)).2 ∧
+      appState a (Instrumented.traceWith dec c a mode ro rep {} hist).1 =
+        appState a (Plain.traceSkip dec c {} (skips.zip hist)).1 :=
+  wrappers_transparent_partial dec c mode ro rep hc ha hserved hist happ
+    (quiet_of_read_only_sync dec c rep hro hc ha hsync rfl hist)
+
+theorem wrappers_transparent_read_only_sync_run (dec : Str → Except Err (Packet × Nat)) (c : Cfg)
+    {a : Ns} (mode : Str) (ro : Bool) (P : Payloads) (hro : ro = true ∨ isDev mode = false)
+    (hc : AppClear c.reg a) (ha : a ≠ star) (hserved : isServed c a = false)
+    (hsync : c.asyncHandlers = false)
+    (hist : List Input) (happ : hist.all (appInput a) = true) :
+    ∃ skips : List Skip, skips.length = hist.length ∧
+      (observeTrace a (Instrumented.trace dec c a mode ro P {} hist).2).flatMap (·.2) =
+        (observeTrace a (Plain.traceSkip dec c {} (skips.zip hist)).2).flatMap (·.2) ∧
+      appState a (Instrumented.run dec c a mode ro P {} hist).1 =
+        appState a (Plain.runSkip dec c {} (skips.zip hist)).1 :=
+  wrappers_transparent_partial_run dec c mode ro P hc ha hserved hist happ
+    (quiet_of_read_only_sync dec c _ hro hc ha hsync rfl hist)
+
+/-! ### read-only means read-only, on the instrumented server as a whole -/
+
+/-- **No request of an admin client can emit application events, change room membership or
+    disconnect clients** — per step, from ANY state (reachable or not), for any reporting policy.
+    The input is a frame that delivers an EVENT packet of the admin namespace (`arriving`: a text
+    frame, or the last attachment of a BINARY_EVENT), whatever the event is called and whatever
+    its arguments are.  After the step of the instrumented server (core, admin handlers' API calls,
+    reports):
+    * the room relation is unchanged, on every namespace (no membership change, no session gone);
+    * every session is connected iff it was;
+    * every packet sent is a packet of the admin namespace (no application event, no DISCONNECT
+      to an application client);
+    * every handler invoked is a handler of the admin namespace and none of the four mutators
+      (no application handler, in particular no `disconnect` handler, runs);
+    * no callback fires; nothing at all is visible on the application side. -/
+theorem read_only_request_inert (dec : Str → Except Err (Packet × Nat)) (c : Cfg) {a : Ns}
+    {mode : Str} {ro : Bool} (rep : Srv → Input → List Out → List Report)
+    (hro : ro = true ∨ isDev mode = false) (hc : AppClear c.reg a) (ha : a ≠ star)
+    (s : Srv) (t : Eio) (v : J) {p : Packet}
+    (harr : arriving dec s t v = some p) (hty : p.type = EVENT) (hns : p.nsp.getD ['/'] = a) :
+    (Instrumented.stepWith dec c a mode ro rep s (.frame t v)).1.rooms = s.rooms ∧
+    (∀ sid ns, isConnected (Instrumented.stepWith dec c a mode ro rep s (.frame t v)).1 sid ns =
+      isConnected s sid ns) ∧
+    (∀ t' q, Out.send t' q ∈ (Instrumented.stepWith dec c a mode ro rep s (.frame t v)).2 →
+      q.nsp = some a) ∧
+    (∀ slot args, Out.invoke slot args ∈ (Instrumented.stepWith dec c a mode ro rep s (.frame t v)).2 →
+      slotNs slot = a ∧ mutatorCalled a (.invoke slot args) = false) ∧
+    (∀ n args, Out.callback n args ∉ (Instrumented.stepWith dec c a mode ro rep s (.frame t v)).2) ∧
+    appView a (.frame t v) (Instrumented.stepWith dec c a mode ro rep s (.frame t v)).2 = [] := by
+  obtain ⟨hr, hp, hh, hn⟩ := stepWith_adminEvent_ro c hro hc ha dec rep s t v harr hty hns
+  refine ⟨hr, ?_, ?_, ?_, ?_, ?_⟩
+  · intro sid ns; simp only [isConnected, hr, hp]
+  · intro t' q hm
+    simpa [appVisible] using hh _ hm
+  · intro slot args hm
+    exact ⟨by simpa [appVisible] using hh _ hm, hn _ hm⟩
+  · intro n args hm
+    have := hh _ hm
+    simp [appVisible] at this
+  · rw [appView, List.filter_eq_nil_iff]
+    intro o ho
+    simp [contained, hh o ho]
+
+/-- **… nor when the request runs later** (`async_handlers=True`: the frame above only queued it):
+    the queued handler of an admin EVENT, run in whatever state, moves nothing but the position
+    of the event script (an event literally named `connect` runs `admin_connect`); rooms,
+    sessions, callbacks are untouched; every output is an admin-namespace packet, an invocation of
+    an admin-namespace handler that is not a mutator, or a contained exception. -/
+theorem read_only_queued_request_inert (c : Cfg) {a : Ns} {mode : Str} {ro : Bool}
+    (hro : ro = true ∨ isDev mode = false) (hc : AppClear c.reg a) (ha : a ≠ star)
+    (s : Srv) (b : Bg) (hb : b.ns = a) :
+    (∃ k, (runHandler (Instrumented.cfg c a mode ro) s b).1 = { s with nEv := s.nEv + k }) ∧
+    (∀ t' q, Out.send t' q ∈ (runHandler (Instrumented.cfg c a mode ro) s b).2 → q.nsp = some a) ∧
+    (∀ slot args, Out.invoke slot args ∈ (runHandler (Instrumented.cfg c a mode ro) s b).2 →
+      slotNs slot = a ∧ mutatorCalled a (.invoke slot args) = false) ∧
+    (∀ n args, Out.callback n args ∉ (runHandler (Instrumented.cfg c a mode ro) s b).2) := by
+  obtain ⟨hk, hh, hn⟩ := runHandler_admin_ro c hro hc ha s b hb
+  refine ⟨hk, ?_, ?_, ?_⟩
+  · intro t' q hm
+    simpa [appVisible] using hh _ hm
+  · intro slot args hm
+    exact ⟨by simpa [appVisible] using hh _ hm, hn _ hm⟩
+  · intro n args hm
+    have := hh _ hm
+    simp [appVisible] at this
+
+/-- **Whole histories: the admin clients' requests might as well not have been sent.**
+    In read-only / production mode, for every history whose API calls do not address the admin
+    namespace (admin transports contribute frames — any frames, any payloads — and losses), the
+    application side observes on the instrumented server exactly the outputs, in the same order,
+    and ends in the same application state as on the PLAIN server (the application's own registry)
+    run on the history from which every EVENT frame of the admin namespace has been removed
+    (`Instrumented.withoutAdminEvents`: text frames, i.e. sent while no binary packet of that
+    transport is being reassembled, that decode to an EVENT packet on `a`) — up to the positions
+    of the id generator and of the scripts (`skips`, as in `wrappers_transparent_partial`).
+    Remaining hypothesis: `settleQuiet` (see `wrappers_transparent_read_only`). -/
+theorem read_only_history_inert (dec : Str → Except Err (Packet × Nat)) (c : Cfg) {a : Ns}
+    (mode : Str) (ro : Bool) (rep : Srv → Input → List Out → List Report)
+    (hro : ro = true ∨ isDev mode = false)
+    (hc : AppClear c.reg a) (ha : a ≠ star) (hserved : isServed c a = false)
+    (hist : List Input) (happ : hist.all (appInput a) = true)
+    (hq : Instrumented.settleQuiet dec c a mode ro rep {} hist = true) :
+    ∃ skips : List Skip,
+      skips.length = (Instrumented.withoutAdminEvents dec c a mode ro rep {} hist).length ∧
+      (observeTrace a (Instrumented.traceWith dec c a mode ro rep {} hist).2).flatMap (·.2) =
+        (observeTrace a (Plain.traceSkip dec c {}
+          (skips.zip (Instrumented.withoutAdminEvents dec c a mode ro rep {} hist))).2).flatMap (·.2) ∧
+      appState a (Instrumented.traceWith dec c a mode ro rep {} hist).1 =
+        appState a (Plain.traceSkip dec c {}
+          (skips.zip (Instrumented.withoutAdminEvents dec c a mode ro rep {} hist))).1 :=
+  pruned_sim ha c hc hserved mode ro dec rep hist {} {} {} Server.WF.init Server.WF.init rfl
+    (fun i hi => List.all_eq_true.mp happ i hi)
+    (by rw [quiet_ro c hro hc ha dec rep {} hist]; exact hq)
+
+/-- … with `async_handlers=False`: for every such history, no further hypothesis. -/
+theorem read_only_history_inert_sync (dec : Str → Except Err (Packet × Nat)) (c : Cfg) {a : Ns}
+    (mode : Str) (ro : Bool) (rep : Srv → Input → List Out → List Report)
+    (hro : ro = true ∨ isDev mode = false)
+    (hc : AppClear c.reg a) (ha : a ≠ star) (hserved : isServed c a = false)
+    (hsync : c.asyncHandlers = false)
+    (hist : List Input) (happ : hist.all (appInput a) = true) :
+    ∃ skips : List Skip,
+      skips.length = (Instrumented.withoutAdminEvents dec c a mode ro rep {} hist).length ∧
+      (observeTrace a (Instrumented.traceWith dec c a mode ro rep {} hist).2).flatMap (·.2) =
+        (observeTrace a (Plain.traceSkip dec c {}
+          (skips.zip (Instrumented.withoutAdminEvents dec c a mode ro rep {} hist))).2).flatMap (·.2) ∧
+      appState a (Instrumented.traceWith dec c a mode ro rep {} hist).1 =
+        appState a (Plain.traceSkip dec c {}
+          (skips.zip (Instrumented.withoutAdminEvents dec c a mode ro rep {} hist))).1 :=
+  read_only_history_inert dec c mode ro rep hro hc ha hserved hist happ
+    (settleQuiet_sync dec c a mode ro rep hsync hist rfl)
 
 /-! ### non-vacuity: one concrete instrumented server -/
 
@@ -616,6 +856,127 @@ example :
     (appState exAdminNs tr.1).rooms.length = 5 ∧
     (appState exAdminNs tr.1).cbs = (appState exAdminNs pl.1).cbs ∧
     (appState exAdminNs tr.1).cbs.length = 2 := by
+  decide
+
+/-! ### non-vacuity of the read-only theorems (same server, same 17-input history) -/
+
+def exDev : Str := "development".toList
+
+/-- the reports of the same server with `read_only=False` -/
+def exRepW := reports exDec (Instrumented.cfg exPlain exAdminNs exDev false) exAdminNs exDev exPayloads
+
+def exIsInvoke : Out → Bool
+  | .invoke _ _ => true
+  | _ => false
+
+/-- `quiet_of_read_only` / `read_only_run_no_mutator`: the hypotheses hold of the example server,
+    the run does invoke handlers (five times: `admin_connect` as connect handler and as handler of
+    the EVENT named `connect`, `msg` three times) — and on the WRITABLE server the same history
+    does invoke a mutator (the admin's `_disconnect` request), so the first half of `quiet` is
+    not a tautology of the model. -/
+example : (true = true ∨ isDev exDev = false) ∧ AppClear exPlain.reg exAdminNs ∧ exAdminNs ≠ star ∧
+    ((Instrumented.traceWith exDec exPlain exAdminNs exDev true exRep {} exHist).2.flatMap
+      (·.2)).countP exIsInvoke = 5 ∧
+    Instrumented.noMutator exDec exPlain exAdminNs exDev true exRep {} exHist = true ∧
+    Instrumented.noMutator exDec exPlain exAdminNs exDev false exRepW {} exHist = false :=
+  ⟨Or.inl rfl, exApp_clear, by decide, by decide, by decide, by decide⟩
+
+/-- `wrappers_transparent_read_only_sync` / `read_only_history_inert_sync`: the example server has
+    synchronous handlers (the conclusion for this history is the comparison above) -/
+example : exPlain.asyncHandlers = false ∧ isServed exPlain exAdminNs = false ∧
+    exHist.all (appInput exAdminNs) = true := ⟨rfl, by decide, by decide⟩
+
+/-- the same application with `async_handlers=True` -/
+def exPlainA : Cfg := { exPlain with asyncHandlers := true }
+
+def exRepA := reports exDec (Instrumented.cfg exPlainA exAdminNs exDev true) exAdminNs exDev exPayloads
+
+/-- the history without the admin's EVENT named `connect` (16 inputs; the `_disconnect` request
+    stays) -/
+def exHistA : List Input := exHist.take 10 ++ exHist.drop 11
+
+/-- `wrappers_transparent_read_only` (asynchronous handlers): the remaining half of `quiet` holds
+    of `exHistA` — and it is exactly the admin's EVENT named `connect` that it excludes: with that
+    frame (`exHist`) it fails. -/
+example : AppClear exPlainA.reg exAdminNs ∧ isServed exPlainA exAdminNs = false ∧
+    exHistA.length = 16 ∧ exHistA.all (appInput exAdminNs) = true ∧
+    Instrumented.settleQuiet exDec exPlainA exAdminNs exDev true exRepA {} exHistA = true ∧
+    Instrumented.settleQuiet exDec exPlainA exAdminNs exDev true exRepA {} exHist = false :=
+  ⟨exApp_clear, by decide, by decide, by decide, by decide, by decide⟩
+
+/-- … and its conclusion is about something: the queued `msg` handlers run at `settle` (and the
+    last one never), the plain server skips what the admin CONNECT consumed -/
+def exSkipsA : List Skip :=
+  [{}, {}, {}, {}, ⟨1, 1, 0⟩, {}, {}, {}, {}, {}, {}, {}, {}, {}, {}, {}]
+
+example :
+    let tr := Instrumented.traceWith exDec exPlainA exAdminNs exDev true exRepA {} exHistA
+    let pl := Plain.traceSkip exDec exPlainA {} (exSkipsA.zip exHistA)
+    ((observeTrace exAdminNs tr.2).flatMap (·.2)).length = 10 ∧
+    ((observeTrace exAdminNs tr.2).flatMap (·.2)).map exKey =
+      ((observeTrace exAdminNs pl.2).flatMap (·.2)).map exKey ∧
+    (appState exAdminNs tr.1).rooms = (appState exAdminNs pl.1).rooms ∧
+    (appState exAdminNs tr.1).bg.length = 1 ∧ (appState exAdminNs pl.1).bg.length = 1 := by
+  decide
+
+/-- the state in which the admin's `_disconnect` request arrives (after nine inputs), on the
+    read-only and on the writable server -/
+def exS9 : Srv := (Instrumented.traceWith exDec exPlain exAdminNs exDev true exRep {} (exHist.take 9)).1
+def exS9W : Srv := (Instrumented.traceWith exDec exPlain exAdminNs exDev false exRepW {} (exHist.take 9)).1
+
+/-- `read_only_request_inert`: its hypotheses hold of that frame in that state (8 entries in the
+    room relation, 5 of them of application sessions) and the step leaves them alone, its one
+    output being a report to the admin — whereas on the writable server the same request, in the
+    corresponding state, removes all three application sessions (6 entries) and the application
+    side sees it (3 DISCONNECT packets). -/
+example :
+    (∃ p, arriving exDec exS9 ['A'] (.str ['x']) = some p ∧ p.type = EVENT ∧
+      p.nsp.getD ['/'] = exAdminNs) ∧
+    exS9.rooms.length = 8 ∧ exS9W.rooms = exS9.rooms ∧
+    (Instrumented.stepWith exDec exPlain exAdminNs exDev true exRep exS9
+      (.frame ['A'] (.str ['x']))).1.rooms = exS9.rooms ∧
+    (Instrumented.stepWith exDec exPlain exAdminNs exDev true exRep exS9
+      (.frame ['A'] (.str ['x']))).2.length = 1 ∧
+    (Instrumented.stepWith exDec exPlain exAdminNs exDev false exRepW exS9W
+      (.frame ['A'] (.str ['x']))).1.rooms.length = 2 ∧
+    (appView exAdminNs (.frame ['A'] (.str ['x']))
+      (Instrumented.stepWith exDec exPlain exAdminNs exDev false exRepW exS9W
+        (.frame ['A'] (.str ['x']))).2).length = 3 := by
+  refine ⟨?_, by decide, by decide, by decide, by decide, by decide, by decide⟩
+  obtain ⟨t, v, p, hi, _, h1, h2, h3⟩ :=
+    adminEventInput_inv (dec := exDec) (a := exAdminNs) (s := exS9) (i := .frame ['A'] (.str ['x']))
+      (by decide)
+  cases hi
+  exact ⟨p, h1, h2, h3⟩
+
+/-- `read_only_queued_request_inert`: a queued admin EVENT named `connect` with an ack id does run
+    `admin_connect` and is acknowledged — to the admin — and the event script moves by one -/
+example :
+    let b : Bg := ⟨"s0".toList, ['A'], .str "connect".toList, [], exAdminNs, some 4⟩
+    let r := runHandler (Instrumented.cfg exPlainA exAdminNs exDev true) { socks := [['A']] } b
+    b.ns = exAdminNs ∧ r.1.nEv = 1 ∧ r.2.map exKey =
+      [(exAdminNs, 100, [], none, "[\"s0\"]".toList),
+       (['A'], ACK, exAdminNs, some 4, "[0]".toList)] := by
+  decide
+
+/-- `read_only_history_inert`: of the 17 inputs, the admin's two requests are removed; the plain
+    server, run on the remaining 15 (skipping what the admin CONNECT and — on the instrumented
+    server — the admin's event named `connect` consumed), shows the application side the same 12
+    outputs and ends in the same application state. -/
+def exSkipsP : List Skip :=
+  [{}, {}, {}, {}, ⟨1, 1, 0⟩, {}, {}, {}, {}, ⟨0, 0, 1⟩, {}, {}, {}, {}, {}]
+
+example :
+    let tr := Instrumented.traceWith exDec exPlain exAdminNs exDev true exRep {} exHist
+    let h' := Instrumented.withoutAdminEvents exDec exPlain exAdminNs exDev true exRep {} exHist
+    let pl := Plain.traceSkip exDec exPlain {} (exSkipsP.zip h')
+    Instrumented.settleQuiet exDec exPlain exAdminNs exDev true exRep {} exHist = true ∧
+    h'.length = 15 ∧
+    ((observeTrace exAdminNs tr.2).flatMap (·.2)).length = 12 ∧
+    ((observeTrace exAdminNs tr.2).flatMap (·.2)).map exKey =
+      ((observeTrace exAdminNs pl.2).flatMap (·.2)).map exKey ∧
+    (appState exAdminNs tr.1).rooms = (appState exAdminNs pl.1).rooms ∧
+    (appState exAdminNs tr.1).cbs = (appState exAdminNs pl.1).cbs := by
   decide
 
 end Sio.C18
